@@ -56,8 +56,10 @@ def write_mseed(path, rng, fs, seconds):
 def make_settings(rng, d):
     import hvsrpy
     wl = float(rng.choice([70.0, 80.0]))
-    pre = hvsrpy.HvsrPreProcessingSettings(window_length_in_seconds=wl, detrend="linear",
-                                           filter_corner_frequencies_in_hz=[None, None], orient_to_degrees_from_north=0.0)
+    corners = [[None, None], [None, None], [0.5, 20.0], [0.3, None], [None, 30.0]][int(rng.integers(0, 5))]
+    pre = hvsrpy.HvsrPreProcessingSettings(window_length_in_seconds=wl, detrend=str(rng.choice(["linear", "constant"])),
+                                           filter_corner_frequencies_in_hz=corners,
+                                           orient_to_degrees_from_north=float(rng.choice([0.0, 0.0, 30.0])))
     sm = dict(operator="konno_and_ohmachi", bandwidth=40.0, center_frequencies_in_hz=np.geomspace(0.5, 40, 16))
     kind = str(rng.choice(["traditional", "traditional", "azimuthal", "diffuse_field"]))
     # the settings file may carry an explicit fft_settings dict (un-padded FFT, a user length, or an empty dict)
@@ -75,7 +77,7 @@ def make_settings(rng, d):
     pre_f, proc_f = os.path.join(d, "pre.json"), os.path.join(d, "proc.json")
     pre.save(pre_f)
     proc.save(proc_f)
-    return pre_f, proc_f, kind + ("" if fft is None else f" fft_settings={fft}"), wl
+    return pre_f, proc_f, kind + ("" if fft is None else f" fft_settings={fft}") + f" filter={corners}", wl
 
 
 def env_for():
